@@ -505,27 +505,48 @@ Proof.
       rewrite fimul_scalar_getz. apply Z.mul_comm.
 Qed.
 
-Lemma steps_ok_model sh : forall steps acc,
-  wf_fib sh (af_elems acc) = true -> af_shape acc = sh -> forallb (step_wf sh) steps = true ->
-  steps_ok sh (af_elems acc) steps (map (fun f => V_fib (af_elems f)) (chain_trace acc steps))
-  = Some (af_elems (chain acc steps))
-  /\ wf_fib sh (af_elems (chain acc steps)) = true /\ af_shape (chain acc steps) = sh.
+Lemma steps_ok_model sh ops : forall steps acc same a0cur,
+  wf_fib sh (af_elems acc) = true -> af_shape acc = sh -> wf_fib sh a0cur = true ->
+  forallb (step_wf sh) steps = true ->
+  steps_ok sh ops same a0cur (af_elems acc) steps (chain_obs ops same a0cur acc steps)
+  = Some (af_elems (chain acc steps), chain_a0 same a0cur acc steps)
+  /\ wf_fib sh (af_elems (chain acc steps)) = true /\ af_shape (chain acc steps) = sh
+  /\ wf_fib sh (chain_a0 same a0cur acc steps) = true.
 Proof.
-  induction steps as [|st steps IH]; intros acc Ha Hsh Hw.
+  induction steps as [|st steps IH]; intros acc same a0cur Ha Hsh Ha0 Hw.
   - cbn. auto.
   - cbn [forallb] in Hw. apply andb_true_iff in Hw. destruct Hw as [Hst Hw].
     destruct (step_ok_model sh acc st Ha Hsh Hst) as (Hok & Hwf' & Hsh').
-    cbn [chain_trace map steps_ok]. rewrite unV_V_fib, Hok.
-    unfold chain. cbn [fold_left]. exact (IH (chain_step acc st) Hwf' Hsh' Hw).
+    cbn [chain_obs steps_ok chain_a0]. rewrite unV_V_fib, Hok, !V_eqb_refl. cbn [andb].
+    unfold chain. cbn [fold_left]. apply IH; [exact Hwf'|exact Hsh'| |exact Hw].
+    destruct (same && is_inplace st); assumption.
+Qed.
+
+Lemma re_operand_wf sh : forall steps c,
+  forallb (step_wf sh) steps = true -> re_operand steps = Some c -> step_wf sh (SAddF c) = true.
+Proof.
+  unfold re_operand. induction steps as [|st steps IH]; intros c Hw E; [discriminate|].
+  cbn [forallb] in Hw. apply andb_true_iff in Hw. destruct Hw as [Hst Hw].
+  cbn [step_operands flat_map] in E. fold (step_operands steps) in E.
+  destruct st as [c'|c'|k|k|c'|c'|k|k]; cbn [step_operand app] in E;
+    try (apply IH; assumption); inversion E; subst; exact Hst.
 Qed.
 
 Lemma chain_model_spec a0 steps mul withfiber b s :
   wf_afib a0 = true -> wf_afib b = true -> forallb (step_wf (af_shape a0)) steps = true ->
   chain_spec a0 steps mul withfiber b s (c11_model (CFibC a0 steps mul withfiber b s)) = true.
 Proof.
-  intros Ha Hb Hw. cbn [c11_model]. unfold chain_spec, Vl.
-  destruct (steps_ok_model (af_shape a0) steps a0 Ha eq_refl Hw) as (H1 & H2 & H3).
-  rewrite H1, H3. apply fib_model_spec; [exact H2|exact Hb].
+  intros Ha Hb Hw. cbn [c11_model]. unfold chain_spec.
+  destruct (steps_ok_model (af_shape a0) (V_operands steps) steps a0 true (af_elems a0) Ha eq_refl Ha Hw)
+    as (H1 & H2 & H3 & H4).
+  rewrite H1, H3. rewrite (fib_model_spec mul withfiber (af_shape a0) _ (af_shape b) (af_elems b) s H2 Hb).
+  cbn [andb]. destruct (re_operand steps) as [c|] eqn:E; cbn [Vo]; [|reflexivity].
+  rewrite unV_V_fib.
+  pose proof (re_operand_wf (af_shape a0) steps c Hw E) as Hc.
+  destruct (step_ok_model (af_shape a0)
+              (Build_afib (af_shape a0) None (chain_a0 true (af_elems a0) a0 steps)) (SAddF c)
+              H4 eq_refl Hc) as (Hok & _ & _).
+  exact Hok.
 Qed.
 
 Lemma c11_model_holds c : holds c11_checker c (model c11_checker c) = true.
@@ -715,7 +736,8 @@ Lemma fiber_chain : forall sh steps acc k,
   /\ (forall x, getz x (af_elems (st_imul_scalar r k)) = getz x (af_elems (st_mul_scalar r k))).
 Proof.
   intros sh steps acc k Ha Hsh Hw r.
-  destruct (steps_ok_model sh steps acc Ha Hsh Hw) as (_ & Hwf & Hs). fold r in Hwf, Hs.
+  destruct (steps_ok_model sh (VL []) steps acc true (af_elems acc) Ha Hsh Ha Hw) as (_ & Hwf & Hs & _).
+  fold r in Hwf, Hs.
   split; [exact Hwf|]. split; [exact Hs|].
   unfold st_add_scalar, st_iadd_scalar, st_imul_scalar, st_mul_scalar. cbn [af_elems]. rewrite Hs.
   split; [apply fadd_scalar_coords|]. split; [intros x; apply fadd_scalar_getz|].
@@ -732,3 +754,30 @@ Lemma c11_chain_examples :
   /\ af_elems (st_iadd_scalar (chain (Build_afib None None []) [SMulS 2; SIAddF g]) 2)
      = [(0, 2); (1, 12); (2, 2); (3, 22); (4, 32)].
 Proof. vm_compute. repeat split. Qed.
+
+(* ---------------------------------------------------------------- round 4 statements *)
+Lemma chain_a0_false : forall steps a0cur acc, chain_a0 false a0cur acc steps = a0cur.
+Proof. induction steps as [|st steps IH]; intros; [reflexivity|]. cbn [chain_a0 andb]. apply IH. Qed.
+
+Lemma chain_a0_split : forall pre acc a0cur st rest,
+  forallb is_inplace pre = true -> is_inplace st = false ->
+  chain_a0 true a0cur acc (pre ++ st :: rest)
+  = match pre with [] => a0cur | _ => af_elems (chain acc pre) end.
+Proof.
+  induction pre as [|p pre IH]; intros acc a0cur st rest Hp Hst.
+  - cbn [app chain_a0]. rewrite Hst. cbn [andb]. apply chain_a0_false.
+  - cbn [forallb] in Hp. apply andb_true_iff in Hp. destruct Hp as [Hp1 Hp].
+    cbn [app chain_a0]. rewrite Hp1. cbn [andb].
+    rewrite (IH (chain_step acc p) (af_elems (chain_step acc p)) st rest Hp Hst).
+    unfold chain. cbn [fold_left]. destruct pre; reflexivity.
+Qed.
+
+Lemma chain_a0_all_inplace : forall steps acc a0cur,
+  forallb is_inplace steps = true ->
+  chain_a0 true a0cur acc steps = match steps with [] => a0cur | _ => af_elems (chain acc steps) end.
+Proof.
+  induction steps as [|p steps IH]; intros acc a0cur Hp; [reflexivity|].
+  cbn [forallb] in Hp. apply andb_true_iff in Hp. destruct Hp as [Hp1 Hp].
+  cbn [chain_a0]. rewrite Hp1. cbn [andb]. rewrite (IH _ _ Hp).
+  unfold chain. cbn [fold_left]. destruct steps; reflexivity.
+Qed.
